@@ -1,3 +1,92 @@
 (* C20 — property theorems (statements only; proofs live in Proofs*.v). *)
-From Coq Require Import ZArith QArith Bool List.
-Require Import QV.C20.Model QV.C20.Spec.
+From Coq Require Import ZArith QArith Qround Qabs Bool List Sorted Permutation.
+Require Import QV.C20.Model QV.C20.Spec QV.C20.ProofsNum QV.C20.ProofsWin QV.C20.ProofsShrink.
+Import ListNotations.
+Open Scope Q_scope.
+
+(* ---- rounding used everywhere: numpy.rint / round() is "nearest, ties to even" ---- *)
+Theorem C20_rint_nearest_even : forall q,
+  Qabs (q - inject_Z (rint q)) <= 1 # 2 /\ (Qabs (q - inject_Z (rint q)) == 1 # 2 -> Z.even (rint q) = true).
+Proof. exact (fun q => conj (rint_near q) (rint_tie_even q)). Qed.
+Print Assumptions C20_rint_nearest_even.
+
+(* ---- voltage -> DAC code (exact rationals; amplitude > 0, resolution >= 1) ---- *)
+Theorem C20_code_monotone : forall amp off res v1 v2, 0 < amp -> (1 <= res)%Z -> v1 <= v2 ->
+  (code1 amp off res v1 <= code1 amp off res v2)%Z.
+Proof. exact code_monotone. Qed.
+Print Assumptions C20_code_monotone.
+
+Theorem C20_code_range_ends : forall amp off res, 0 < amp ->
+  code1 amp off res (off - amp) = 0%Z /\ code1 amp off res (off + amp) = (2 ^ res - 1)%Z.
+Proof. exact (fun amp off res H => conj (code_lo amp off res H) (code_hi amp off res H)). Qed.
+Print Assumptions C20_code_range_ends.
+
+Theorem C20_code_in_code_range : forall amp off res v, 0 < amp -> (1 <= res)%Z -> off - amp <= v -> v <= off + amp ->
+  (0 <= code1 amp off res v <= 2 ^ res - 1)%Z.
+Proof. exact code_range. Qed.
+Print Assumptions C20_code_in_code_range.
+
+(* | code * step - (v - lo) | <= step / 2   with step = 2 amp / (2^res - 1), lo = off - amp *)
+Theorem C20_code_half_step_error : forall amp off res v, 0 < amp -> (1 <= res)%Z ->
+  Qabs (inject_Z (code1 amp off res v) * (((2 # 1) * amp) / inject_Z (2 ^ res - 1)) - (v - (off - amp)))
+  <= (((2 # 1) * amp) / inject_Z (2 ^ res - 1)) / (2 # 1).
+Proof. exact code_error. Qed.
+Print Assumptions C20_code_half_step_error.
+
+Theorem C20_out_of_range_rejected : forall amp off res vs,
+  (volt_numpy amp off res vs = OErr <-> exists v, In v vs /\ amp < Qabs (v - off))
+  /\ ((forall v, In v vs -> Qabs (v - off) <= amp) -> volt_numpy amp off res vs = ORet (map (code1 amp off res) vs)).
+Proof. exact (fun amp off res vs => conj (volt_numpy_rejects amp off res vs) (volt_numpy_accepts amp off res vs)). Qed.
+Print Assumptions C20_out_of_range_rejected.
+
+Theorem C20_volt_variants_equal : forall amp off res vs, volt_loop amp off res vs = volt_numpy amp off res vs.
+Proof. exact volt_variants. Qed.
+Print Assumptions C20_volt_variants_equal.
+
+(* ---- is_monotonic ---- *)
+Theorem C20_is_monotonic : forall xs,
+  mono_loop xs = mono_numpy xs /\ (mono_numpy xs = true <-> Sorted Qle xs).
+Proof.
+  exact (fun xs => conj (mono_variants xs)
+                        (eq_ind_r (fun b => b = true <-> Sorted Qle xs) (sortedb_Sorted xs) (mono_numpy_sortedb xs))).
+Qed.
+Print Assumptions C20_is_monotonic.
+
+(* ---- time windows -> sample indices ---- *)
+Theorem C20_windows_sorted_by_begin : forall sr ws,
+  tw_numpy sr ws = map (conv sr) (sort_w ws)
+  /\ Sorted (fun a b => fst a <= fst b) (sort_w ws) /\ Permutation (sort_w ws) ws
+  /\ (0 <= sr -> Sorted Z.le (map fst (tw_numpy sr ws))).
+Proof.
+  exact (fun sr ws => conj eq_refl (conj (sort_w_sorted ws) (conj (sort_w_perm ws) (tw_begins_sorted sr ws)))).
+Qed.
+Print Assumptions C20_windows_sorted_by_begin.
+
+Theorem C20_window_rounding : forall sr w,
+  (Qabs (fst w * sr - inject_Z (fst (conv sr w))) <= 1 # 2
+   /\ (Qabs (fst w * sr - inject_Z (fst (conv sr w))) == 1 # 2 -> Z.even (fst (conv sr w)) = true))
+  /\ (inject_Z (snd (conv sr w)) <= snd w * sr /\ snd w * sr < inject_Z (snd (conv sr w)) + 1).
+Proof. exact (fun sr w => conj (conv_begin_nearest sr w) (conv_length_floor sr w)). Qed.
+Print Assumptions C20_window_rounding.
+
+Theorem C20_windows_variants_equal : forall sr ws, tw_loop sr ws = tw_numpy sr ws.
+Proof. exact tw_variants. Qed.
+Print Assumptions C20_windows_variants_equal.
+
+(* ---- shrink_overlapping_windows (all window lists, no sortedness or sign assumption) ---- *)
+Theorem C20_shrink : forall ws ws' s, shrink_loop ws = ORet (ws', s) ->
+  Forall2 (fun w w' => w_end w = w_end w' /\ (fst w <= fst w')%Z) ws ws'      (* ends stay, begins only move forward *)
+  /\ disjoint_adj ws'                                                           (* consecutive windows are disjoint *)
+  /\ hd_error ws' = hd_error ws.
+Proof. exact shrink_loop_ok. Qed.
+Print Assumptions C20_shrink.
+
+Theorem C20_shrink_pairwise_disjoint : forall ws ws' s, shrink_loop ws = ORet (ws', s) ->
+  Forall (fun w => (0 <= snd w)%Z) ws -> StronglySorted (fun a b => (w_end a <= fst b)%Z) ws'.
+Proof. exact shrink_loop_pairwise. Qed.
+Print Assumptions C20_shrink_pairwise_disjoint.
+
+(* holds since the repair 108ec35 of /repo (before, the numpy variant rejected every zero-length window) *)
+Theorem C20_shrink_variants_equal : forall ws, shrink_numpy ws = shrink_loop ws.
+Proof. exact shrink_variants. Qed.
+Print Assumptions C20_shrink_variants_equal.
